@@ -42,6 +42,11 @@ def run(ctx):
                        cap=100000 if q else 1000000, label="single-filters-flat-full", classify=None)
     fsops.graph_search(ctx, [C(f) for f in singles], fsops.small_trees(1), CHECKS, burst_len=2, depth=1,
                        respect_pacing=True, cap=100000 if q else 1000000, label="single-filters-bursts", classify=None)
+    # state shared between emitters: a non-recursive watch with the same filter is started first (another directory)
+    narrow = [["FileModifiedEvent"], ["FileClosedEvent"], ["FileClosedNoWriteEvent"], ["FileOpenedEvent"], ["FileDeletedEvent"]]
+    fsops.graph_search(ctx, [C(f, prior_flat=True) for f in narrow], fsops.small_trees(0 if q else 1), CHECKS, burst_len=1,
+                       depth=2, respect_pacing=True, cap=60000 if q else 400000, label="prior-flat-watch-same-filter",
+                       classify=None)
     if not q:
         pairs = [list(p) for p in itertools.combinations(CONCRETE, 2)]
         fsops.graph_search(ctx, [C(f) for f in pairs], fsops.small_trees(2), CHECKS, burst_len=1, depth=1,
